@@ -5152,7 +5152,8 @@ func (formalArgs createArgsMapped) exec(vm *vm) {
 				configurable: true,
 				enumerable:   true,
 			},
-			v: &vm.stash.values[i],
+			stash: vm.stash,
+			idx:   i,
 		})
 	}
 
